@@ -154,6 +154,10 @@ def parse_template(path):
                     flush()
                     parts.append(("include", rest, i + 1))
                     buf_line = i + 2
+                elif word == "stub":
+                    flush()
+                    parts.append(("stub", rest, i + 1))
+                    buf_line = i + 2
                 elif word in ("fn", "item", "region", "expr"):
                     flush()
                     cur = Block(word, rest, i + 1)
@@ -829,6 +833,57 @@ def _collect_break(d, ex, unit_breaks, relfile, harmless=False):
                         "raw": ex.text})
 
 
+def contract_stub(args, overlay, meta, lineno):
+    """`//@stub UNIT Type::fn [as=NAME]`: emit an external_body stub of a function whose contract is PROVED in another unit:
+    the signature is re-extracted from /repo (with that unit's declared rewrites), the clauses are that unit's `spec` text.
+    This is the modular step done mechanically: the callee is seen through the contract proved elsewhere."""
+    opts, words = parse_opts(args)
+    if len(words) < 2:
+        raise GenError("template line %d: //@stub UNIT Type::fn" % lineno)
+    unit, path = words[0], words[1]
+    tpath = os.path.join(VERIF, "units", unit + ".vrs")
+    try:
+        _, parts = parse_template(tpath)
+    except OSError as e:
+        raise GenError("stub: cannot read unit %s: %s" % (unit, e))
+    blk = None
+    allparts = list(parts)
+    # look into the unit's includes as well (contracts proved on functions extracted by a shared prelude)
+    for p in parts:
+        if p[0] == "include":
+            try:
+                allparts += parse_template(os.path.join(VERIF, "prelude", p[1]))[1]
+            except OSError:
+                pass
+    want_as = opts.get("of")
+    for p in allparts:
+        if p[0] == "block" and p[1].kind == "fn":
+            o2, w2 = parse_opts(p[1].args)
+            if "as" in w2:
+                o2["as"] = w2[w2.index("as") + 1]
+            if len(w2) >= 2 and w2[1] == path and (want_as is None or o2.get("as") == want_as) and (want_as is not None or "as" not in o2):
+                blk = p[1]
+                break
+    if blk is None:
+        raise GenError("stub: unit %s has no //@fn block for %s (template line %d)" % (unit, path, lineno))
+    ex, _ = expand_block(blk, overlay, [], meta.get("backend", "verus"))
+    sig = ex.sig
+    if "as" in opts:
+        sig = re.sub(r"\bfn\s+\w+", "fn " + opts["as"], sig, count=1)
+    out = ["#[verifier::external_body]\n", sig.rstrip() + "\n"]
+    last = None
+    for cid, kind, txt in ex.clauses:
+        if kind.startswith("invariant") or "/loop" in cid:
+            continue
+        if kind != last:
+            out.append("    %s\n" % kind)
+            last = kind
+        out.append("        %s,\n" % txt)
+    out.append("{ unimplemented!() }\n")
+    meta.setdefault("contract_stubs", []).append("%s (contract proved in unit %s)" % (path, unit))
+    return Chunk("".join(out), {"t": "template", "line": lineno, "stub_of": "%s::%s" % (unit, path)})
+
+
 class Generated:
     def __init__(self):
         self.meta = None
@@ -875,6 +930,8 @@ def generate(template_path, overlay=None):
                         if x not in meta.setdefault(k, []):
                             meta[k].append(x)
                 emit(iparts, p[1], depth + 1)
+            elif p[0] == "stub":
+                g.chunks.append(contract_stub(p[1], overlay, meta, p[2]))
             else:
                 ex, chunks = expand_block(p[1], overlay, g.breaks, meta.get("backend", "verus"))
                 g.extracted.append(ex)
